@@ -22,6 +22,8 @@ static const char* kShape[] = {
   /*0*/ "@", /*1*/ "{\"a\":@}", /*2*/ "{\"a\":@,\"b\":@}", /*3*/ "{\"a\":{\"a\":@,\"b\":@},\"b\":@}", /*4*/ "{\"a\":{\"a\":{\"a\":@}}}", /*5*/ "[@,@]",
   /*6*/ "{\"b\":@,\"a\":@}", /*7*/ "{\"c\":@,\"a\":@}", /*8*/ "{\"a\":{\"b\":@,\"c\":@}}", /*9*/ "{\"\\u0061\":@}", /*10*/ "{\"a\":{\"a\":{\"a\":@,\"b\":@}},\"b\":@}", /*11*/ "{}",
   /*12*/ "{\"a\":@,\"b\":{\"a\":@}}", /*13*/ "{\"a\\n\":@,\"a\":@}", /*14*/ "{\"b\":[@,@],\"a\":@}", /*15*/ "[[@,@]]",
+  /*16*/ "{\"a\":{\"b\":@},\"b\":@}", /*17*/ "{\"a\":{\"b\":{\"a\":@}},\"b\":@}", /*18*/ "{\"a\":{\"a\":@,\"b\":{\"a\":@}},\"b\":@}",
+  /*19*/ "{\"a\":{\"a\":@,\"b\":1},\"b\":2}", /*20*/ "{\"a\":{\"a\":@,\"b\":{\"a\":3}},\"b\":4}",
 };
 
 // the first slot of a text is one symbolic digit (an integer payload that stays symbolic through every parse and merge);
